@@ -533,8 +533,8 @@ func queueNextRepr(c *Ctx, rule string) {
 		nAdv, nEmpty := 0, 0
 		for _, qlen := range []int64{0, 1, 2} {
 			at := &Atoms{Class: cls, Int: map[string]int64{"QLEN": qlen, "QLEN-1": qlen - 1, "ZERO": 0}}
-			e := &PPA{Cond: at.Cond, Watch: func(ev *Ev) bool {
-				return ev.Label == "builtin:delete" || strings.HasPrefix(ev.Label, "store:coalesce.Queue.") || strings.HasPrefix(ev.Label, "mapupdate:")
+			e := &PPA{Cond: at.Cond, TraceLookups: true, Watch: func(ev *Ev) bool {
+				return ev.Label == "builtin:delete" || strings.HasPrefix(ev.Label, "store:coalesce.Queue.") || strings.HasPrefix(ev.Label, "mapupdate:") || (strings.HasPrefix(ev.Label, "lookup:") && ev.Field == fCoal)
 			}}
 			e.Run(next)
 			c.Paths += len(e.Paths)
@@ -547,7 +547,13 @@ func queueNextRepr(c *Ctx, rule string) {
 				valid := retClass(p.Rets[2])
 				if qlen == 0 {
 					nEmpty++
-					c.Check(valid == "const:false" && len(p.Trace) == 0 && retClass(p.Rets[0]) == "nil", rule, fnName(next), "empty queue => (nil,0,false), nothing written", P.Pos(next.Pos()), "path: "+p.String())
+					nw := 0
+					for j := range p.Trace {
+						if !strings.HasPrefix(p.Trace[j].Label, "lookup:") {
+							nw++
+						}
+					}
+					c.Check(valid == "const:false" && nw == 0 && retClass(p.Rets[0]) == "nil", rule, fnName(next), "empty queue => (nil,0,false), nothing written", P.Pos(next.Pos()), "path: "+p.String())
 					continue
 				}
 				nAdv++
@@ -564,6 +570,18 @@ func queueNextRepr(c *Ctx, rule string) {
 				// count = coalesced[item], looked up before the key is forgotten
 				cnt, isLk := p.Rets[1].V.(*ssa.Lookup)
 				cntOK := isLk && loadOfField(cnt.X, fCoal) && cnt.Index == item
+				if isLk && !cntOK {
+					// the key as resolved when the lookup ran (the item may be held in a named result)
+					for j := range p.Trace {
+						if ev := &p.Trace[j]; ev.In == ssa.Instruction(cnt) && len(ev.Args) >= 2 && ev.Field == fCoal {
+							k := ev.Args[1].V
+							if mi, ok := k.(*ssa.MakeInterface); ok {
+								k = mi.X
+							}
+							cntOK = k == item
+						}
+					}
+				}
 				// final queue: the last store decides
 				queueOK, queueWhy := false, "queue not advanced"
 				// final bookkeeping: the key is forgotten, the other pending keys keep their counts
@@ -603,6 +621,7 @@ func queueNextRepr(c *Ctx, rule string) {
 						} else {
 							forgot, coalWhy = false, "coalesced = "+Expr(ev.Args[1].V)
 						}
+					case strings.HasPrefix(ev.Label, "lookup:"):
 					case strings.HasPrefix(ev.Label, "mapupdate:"):
 						forgot, coalWhy = false, "map written while dequeuing"
 					}
